@@ -17,6 +17,7 @@ func checkC16(c *Ctx) {
 	r.Rule("R16.1", "zone decision: the decision function extracted from appendTimestamp formats z.UTC() exactly when utcTime == 2 or (utcTime == 0 and the LlocalTime flag is off), and z itself otherwise; SetUTCMode stores 2 for no argument/true and 1 for false")
 	r.Rule("R16.2", "layout decision: the layout is the logger's own when non-empty, else defaultLayouts[flags & Ldatetimeflags], else TimeNano; the table's keys are combinations of the three date/time flags only, and every layout that prints a time of day also prints the zone (otherwise the text cannot be parsed back to the instant)")
 	r.Rule("R16.3", "same instant in all formats: every branch formats the zone-adjusted value of the function's own argument with time.Time.AppendFormat and the decided layout; the record's timestamp printer passes the record's own instant, which set() takes from the call (time.Now() in logContext, the caller's value in WriteThru)")
+	r.Rule("R16.5", "the instant is not altered on its way: WriteThru, print and PrintCtx.set hand on / store the time value they are given itself (no Truncate/Round/Add/In in between), and the timestamp printer prints the stored instant")
 	r.Rule("R16.4", "per-logger settings reach the encoder: setentry copies timeLayout and modeUTC unconditionally; SetTimeFormat stores the layout given; no pooled layout/zone field is read stale in any mode (engine E10)")
 	r.Assume("time.Time.AppendFormat and time.Parse are inverse for a layout (standard library)")
 	for _, tags := range c.Configs([]string{""}, []string{"", "verbose"}) {
@@ -30,6 +31,7 @@ func checkC16(c *Ctx) {
 			continue
 		}
 		c16Timestamp(c, p, m)
+		instantFlow(c, p, m)
 		c09Pooled(c, p, m, "R16.4", feasibleModes)
 	}
 	c.Floor["R16.1"] = 6
